@@ -145,8 +145,16 @@ JFill(r) ==
     /\ Clause(i, "C05.fill.originals_kept_in_order", orig # <<>>)
     /\ orig # <<>> => Clause(i, "C05.fill.gaps_and_inserts", FillGapsOK(r.pts, r.m2, o.verts, orig))
 
+\* Curve3::resample has no error channel: when fewer than two distinct samples exist it can only panic
+ResamplePanicAllowed(r) ==
+    /\ r.op = "resample" /\ r.dim = 3 /\ r.out.panic
+    /\ LET v == Built(r.pts, 0, r.fc, r.dim) IN
+       CASE r.mode = "count" -> CountMayFail(v, r.n)
+         [] r.mode = "spacing" -> SpacingMayFail(v, r.n, FALSE)
+         [] OTHER -> MaxSpacingMayFail(v, r.n)
+
 Judge(r) ==
-    /\ Sane(i, r)
+    /\ ResamplePanicAllowed(r) \/ Sane(i, r)
     /\ Ran(r) =>
         CASE r.op = "stations" -> JStations(r)
           [] r.op = "resample" -> JResample(r)
